@@ -11,8 +11,8 @@ const (
 	gA = 1 // no GDEF class
 	gB = 2 // base
 	gL = 3 // ligature
-	gM = 4 // mark, attachment class 1, mark set 0
-	gN = 5 // mark, attachment class 2, mark set 1
+	gM = 4 // mark, attachment class 1, mark sets 0 and 2
+	gN = 5 // mark, attachment class 2, mark sets 1 and 2
 	gX = 6 // no class
 	gY = 7 // no class
 	gZ = 8 // mark, attachment class 1, both mark sets
@@ -23,7 +23,7 @@ func fullGdef() *Gdef {
 	return &Gdef{
 		Class:  [][2]int{{gB, 1}, {gL, 2}, {gM, 3}, {gN, 3}, {gZ, 3}, {gW, 2}},
 		Attach: [][2]int{{gM, 1}, {gN, 2}, {gZ, 1}},
-		Sets:   [][]int{{gM, gZ}, {gN, gZ}},
+		Sets:   [][]int{{gM, gZ}, {gN, gZ}, {gM, gN}}, // pairwise disagreeing on M or N
 	}
 }
 
@@ -72,6 +72,7 @@ var flagVars = []flagVar{
 	{"base+lig+marks", flagBase | flagLig | flagMarks, 0, false},
 	{"mfs0", flagMFS, 0, true},
 	{"mfs1", flagMFS, 1, true},
+	{"mfs2", flagMFS, 2, true},
 	{"att1", 1 << 8, 0, true},
 	{"att2", 2 << 8, 0, true},
 	{"marks+mfs1", flagMarks | flagMFS, 1, true},
@@ -443,6 +444,53 @@ func catalogue() []entry {
 			}
 		}
 	}
+	// 7. parent and nested lookup with DIFFERENT glyph filters, in particular
+	//    the same flag word with different mark filtering sets (the set index
+	//    is not part of the flag word): every pair of the three mark glyph
+	//    sets, and filtering set against attachment type / IgnoreMarks.
+	//    Alphabet A, M, N: the sets disagree on the marks M and N.
+	type fpair struct{ p, c flagVar }
+	var fpairs []fpair
+	mfsv := []flagVar{fv("mfs0"), fv("mfs1"), fv("mfs2")}
+	for _, a := range mfsv {
+		for _, b := range mfsv {
+			fpairs = append(fpairs, fpair{a, b})
+		}
+		for _, o := range []flagVar{fv("att1"), fv("att2"), fv("marks")} {
+			fpairs = append(fpairs, fpair{a, o}, fpair{o, a})
+		}
+	}
+	fpairs = append(fpairs, fpair{fv("att1"), fv("att2")}, fpair{fv("att2"), fv("att1")})
+	vm := vr(0, 33, 0)
+	filterChildren := []childKind{
+		{"gsub1.1", Sub{Kind: "s1", Cov: []int{gA, gM, gN}, Delta: 5}},
+		{"gsub4.1", Sub{Kind: "lig", LigSets: []LigSet{{gA, []Lig{{[]int{gA}, gX}}}, {gM, []Lig{{[]int{gA}, gY}}}, {gN, []Lig{{[]int{gN}, gY}}}}}},
+		{"gpos2.1", Sub{Kind: "pp1", PairRows: []PairRow{
+			{gA, []PairEnt{{gA, PairCell{vr(0, 0, -200), &vm}}, {gM, PairCell{vr(1, 0, 0), nil}}, {gN, PairCell{vr(0, 2, 0), &vm}}}},
+			{gM, []PairEnt{{gA, PairCell{vr(0, 0, 7), nil}}}},
+		}}},
+	}
+	filterShapes := []shape{
+		{"c1", false, false, false}, {"c2", false, false, true}, {"c3", false, false, true},
+		{"k1", false, true, false}, {"k3", false, true, true},
+	}
+	for _, sh := range filterShapes {
+		for _, fp := range fpairs {
+			for _, ck := range filterChildren {
+				for _, acts := range [][]Action{{{0, 1}}, {{1, 1}, {0, 1}}} {
+					out = append(out, entry{gd: gd,
+						ll: []Lookup{
+							{fp.p.flags, fp.p.mfs, []Sub{ctxSubW(sh.format, 2, sh.back, sh.look, sh.wide, acts)}},
+							{fp.c.flags, fp.c.mfs, []Sub{ck.sub}},
+						},
+						order:    []int{0},
+						alphabet: []int{gA, gM, gN},
+						labels: []string{"filter-pair", "ctx:" + sh.format, "ctx-flags:" + fp.p.name,
+							"child-flags:" + fp.c.name, "child:" + ck.name}})
+				}
+			}
+		}
+	}
 	return out
 }
 
@@ -687,9 +735,9 @@ func randFlags(r *vlib.Rand) (int, int) {
 	if r.Chance(1, 3) {
 		flags |= r.Range(1, 3) << 8
 	}
-	mfs := r.Intn(2)
+	mfs := r.Intn(3)
 	if r.Chance(1, 50) {
-		mfs = 2 // no such set: outside the domain
+		mfs = 3 // no such set: outside the domain
 	}
 	return flags, mfs
 }
